@@ -159,6 +159,16 @@ def execute(hs, prop, fmt, oracle, ver, shape, multi, form, ents, absent):
             return 'skip:no-zone-for-fixed-offset', []
         return 'dump-raised', [('dump-raised', {'exc': exc_name(e)}, {'exc': repr(e)})]
     detail = {'dumped': text if len(text) < 1500 else text[:1500] + '...'}
+    if fmt == 'json':
+        # the version-appropriate Remove spelling is part of both JSON properties (C02 and C06)
+        try:
+            jo = json.loads(text)
+            first = jo[0] if isinstance(jo, list) else jo
+            bad = '-:' if ver == '2.0' else 'x:'
+            if _has_value(first, bad, top=True):
+                fails.append(('remove-spelled-for-other-version', {'spelling': bad}, detail))
+        except ValueError:
+            pass
     if oracle == 'own':
         try:
             if fmt == 'json' and form == 'bytes':
@@ -188,10 +198,6 @@ def execute(hs, prop, fmt, oracle, ver, shape, multi, form, ents, absent):
             else:
                 observed = refjson.read(json.loads(text))
                 jo = json.loads(text)
-                first = jo[0] if isinstance(jo, list) else jo
-                bad = '-:' if ver == '2.0' else 'x:'
-                if _has_value(first, bad, top=True):
-                    fails.append(('remove-spelled-for-other-version', {'spelling': bad}, detail))
                 if (multi == 2) != isinstance(jo, list):
                     fails.append(('json-top-level-shape', {}, detail))
         except (refzinc.RefZincError, refjson.RefJsonError, ValueError) as e:
